@@ -173,6 +173,8 @@ decode_loop.native_random = 100
 def points_to_tribits_stub(points):
     """what `decode` sees of points_to_tribits: for points that ARE the encoding of the ghost tribits (call-site
     obligation, proved point by point) it returns those tribits"""
+    if GHOST.get("queue"):  # several blocks decoded in a known order (C07): one ghost entry per call
+        GHOST.update(GHOST["queue"].pop(0))
     vc, trib, want = GHOST["vc"], GHOST["trib"], GHOST["points"]
     from pyvc import shadows
 
